@@ -19,6 +19,7 @@
 //!      file = <key>,<file name>,<name attribute>,<body seed>,<bad>,<base>+<base>...
 //!      op   = ig.<layer>.<name>.<seed> (insert_glyph) | rg.<layer>.<name> (remove_glyph)
 //!           | mg.<layer>.<old>.<new> (rename_glyph, no overwrite) | eo.<layer>.<name>.<seed> (entry(..).or_insert)
+//!           | sw.<layer>.<a>.<b> (exchange the glyphs stored under a and b through get_glyph_mut) | cp.<layer>.<a>.<b> (b's slot = a's glyph)
 //!  => Qok|Qerr  D:<name>:<dir>:<len>:<glyph>;... [DG:<group>=<members>;..] [DK:<first>.<second>=<value bits>;..]
 //!     [E:... the layers after the history]
 //!     S:<dir>:<file name>=<name in file>;...  H<tree hash>
@@ -353,6 +354,22 @@ pub fn apply_ops(font: &mut Font, ops: &str, layers: &[String]) {
             "eo" => {
                 let g = api_glyph(&name, f[3].parse().unwrap());
                 layer.entry(g.name().clone()).or_insert(g);
+            }
+            // whole glyphs exchanged / copied through `get_glyph_mut`: the slot's key and the glyph's own name now differ
+            "sw" => {
+                let other = unhexs(f[3]);
+                if let (Some(x), Some(y)) = (layer.get_glyph(&name).cloned(), layer.get_glyph(&other).cloned()) {
+                    *layer.get_glyph_mut(&name).unwrap() = y;
+                    *layer.get_glyph_mut(&other).unwrap() = x;
+                }
+            }
+            "cp" => {
+                let other = unhexs(f[3]);
+                if let Some(x) = layer.get_glyph(&name).cloned() {
+                    if let Some(slot) = layer.get_glyph_mut(&other) {
+                        *slot = x;
+                    }
+                }
             }
             _ => {}
         }
@@ -832,7 +849,7 @@ pub fn gen_ops(rng: &mut Rng, layers: &[LayerSpec], n: usize) -> String {
         }
         let seed = rng.below(1_000_000);
         // the first operation of every history is an `entry` insertion of a name that sorts early
-        let kind = if i == 0 { 3 } else { rng.below(4) };
+        let kind = if i == 0 { 3 } else { rng.below(6) };
         let op = match kind {
             0 => format!("ig.{}.{}.{}", li, hexs(&name), seed),
             1 => format!("rg.{}.{}", li, hexs(&name)),
@@ -843,6 +860,13 @@ pub fn gen_ops(rng: &mut Rng, layers: &[LayerSpec], n: usize) -> String {
                 }
                 used.push((li, new.clone()));
                 format!("mg.{}.{}.{}", li, hexs(&name), hexs(&new))
+            }
+            4 | 5 => {
+                let other = pick_name(rng, &used);
+                if other.is_empty() {
+                    continue;
+                }
+                format!("{}.{}.{}.{}", if kind == 4 { "sw" } else { "cp" }, li, hexs(&name), hexs(&other))
             }
             _ => {
                 let nm = if i == 0 { rng.pick(&fresh).to_string() } else { name.clone() };
